@@ -127,6 +127,10 @@ pub struct RunCfg {
     pub hang_after: Duration,
     /// absolute wall budget per child
     pub max_wall: Duration,
+    /// scenarios in which the KERNEL decides when something arrives (io_uring completions): a violation
+    /// whose re-execution diverges is re-executed this many more times and kept if it shows again at
+    /// least twice (0 = every re-execution must reproduce it, the rule everywhere else)
+    pub racy_confirm: u32,
 }
 
 impl Default for RunCfg {
@@ -143,6 +147,7 @@ impl Default for RunCfg {
                     .unwrap_or(4000),
             ),
             max_wall: Duration::from_secs(60),
+            racy_confirm: 0,
         }
     }
 }
@@ -288,12 +293,14 @@ pub fn run_many<F: Fn(usize, &mut Emitter)>(n: usize, cfg: &RunCfg, body: F) -> 
         parallel: 1,
         hang_after: cfg.hang_after,
         max_wall: cfg.max_wall,
+        racy_confirm: 0,
     };
     // each worker is itself a "job" of the local runner; it gets a generous budget
     let wcfg = RunCfg {
         parallel: workers,
         hang_after: cfg.max_wall + cfg.hang_after + Duration::from_secs(30),
         max_wall: Duration::from_secs(24 * 3600),
+        racy_confirm: 0,
     };
     let wres = run_many_local(workers, &wcfg, |_, em| loop {
         let j = counter.fetch_add(1, std::sync::atomic::Ordering::SeqCst);
